@@ -227,6 +227,11 @@ def analyze(backend, ops, outs):
     for op, out in zip(ops, outs):
         f = op.split()
         order += 1
+        if "unexpected-event:gate-" in out:
+            g = {"gate-open": "store.Cursor", "gate-register": "store.AddCallback", "gate-last": "store.Last"}[out[out.index("unexpected-event:") + 17:].split()[0]]
+            problems.append(("violation", None, f"`{op}`: SyncChain reached {g} out of order — the stream's steps are Last, then Cursor/Seek/Next, then AddCallback; "
+                             "with another order rounds are repeated or lost"))
+            return problems
         if out in ("stuck", "bad-op", "unsettled") or out.startswith(("panic", "unexpected-event", "err:", "blocked")):
             problems.append(("violation", None, f"`{op}` answered {out}"))
             return problems
@@ -460,15 +465,20 @@ def explore(ctx, res):
         chunk = 60
         for i in range(0, len(scens), chunk):
             batches.append((backend, scens[i:i + chunk]))
-    with ThreadPoolExecutor(max_workers=8) as ex:
-        results = list(ex.map(lambda b: run_batch(b[0], b[1], ctx["model_ok"]), batches))
+    # corpus witnesses and the exhaustive placements come first; groups of 8 batches run in parallel and are judged
+    # before the next group starts, so a violation is reported without waiting for the whole budget
+    batches.sort(key=lambda b: 0 if any(sc["name"].startswith("corpus") for sc in b[1]) else 1)
+    def groups():
+        with ThreadPoolExecutor(max_workers=8) as ex:
+            for i in range(0, len(batches), 8):
+                yield list(ex.map(lambda b: run_batch(b[0], b[1], ctx["model_ok"]), batches[i:i + 8]))
     total = validated = 0
     nontriv = set()
     dist = {"ops": {}, "outcomes": {}, "puts_by_stream_phase": {}, "start_round_class": {}, "backend": {}, "mode": {}, "deviations": {}}
     samples = []
     tracked_matches = 0
     reported = set()
-    for batch in results:
+    for batch in (b for g in groups() for b in g):
         for sc, impl, model in batch:
             backend, ops = sc["backend"], sc["xops"]
             total += len(ops)
